@@ -135,6 +135,9 @@ func main() {
 	case "sch":
 		replans = 3
 		genSchemas(w, *tier)
+	case "big":
+		symOff = 50
+		genLarge(w, *tier)
 	default:
 		fmt.Fprintln(os.Stderr, "unknown mode")
 		os.Exit(2)
@@ -291,6 +294,26 @@ func showPlan(cs []schema.Change) string {
 		return "unmodelled"
 	}
 	return strings.Join(top, ",") + showOut(os)
+}
+
+// symOff: the symbol of the key table i declares to table j is symOff+j (the key it loses: j). 50 in stage "large".
+var symOff = 20
+
+// obsOut: the plan as it is compared with the model. Up to 12 changes: the exact order (Go's sort.Slice is
+// then the stable insertion sort of the executable model). Beyond 12 pdqsort breaks ties between equal keys
+// (every table without keys reads index 0) in its own way: the theorems cover every tie-break
+// (C04_safe_any_tiebreak), the comparison is then on the multiset of planned changes + the replay verdict,
+// and the order is judged by the oracle alone.
+func obsOut(sc *scenario, os []ochg) string {
+	if len(sc.cs) <= 12 {
+		return showOut(os)
+	}
+	ss := make([]string, len(os))
+	for i, o := range os {
+		ss[i] = o.String()
+	}
+	sort.Strings(ss)
+	return "{" + strings.Join(ss, " ") + "}"
 }
 
 // replans: how often the same slice value is planned (the observed plan is the last one -- the one
@@ -582,12 +605,12 @@ func runCase(w *out.W, id string, sc *scenario, tags ...string) {
 		verdict, viol := judge(sc, in, r.outp)
 		if ep.name != "sort" && len(sc.pre) > 0 {
 			// schema-level statements: each one of the change list, once, first (topLevel)
-			obs = append(obs, fmt.Sprintf("%s out=%s replay=%s top=%s", ep.name, showOut(r.outp), verdict, strings.Join(r.top, ",")))
+			obs = append(obs, fmt.Sprintf("%s out=%s replay=%s top=%s", ep.name, obsOut(sc, r.outp), verdict, strings.Join(r.top, ",")))
 			if want := sc.preLine(); strings.Join(r.top, ",") != want {
 				w.Violation(id, "schema-change-not-once", fmt.Sprintf("%s: the executed plan has the schema-level statements [%s], the change list has [%s]; case: %s", ep.name, strings.Join(r.top, ","), want, line))
 			}
 		} else {
-			obs = append(obs, fmt.Sprintf("%s out=%s replay=%s", ep.name, showOut(r.outp), verdict))
+			obs = append(obs, fmt.Sprintf("%s out=%s replay=%s", ep.name, obsOut(sc, r.outp), verdict))
 		}
 		if !hyp {
 			viol = nil // outside WF / consistent the property says nothing; the case is compared only
@@ -710,7 +733,7 @@ func mkScenarioQ(n int, names []int, roles []int, adj [][]bool, variant int, ord
 			c := chg{kind: 'A', t: des(i)}
 			for j := 0; j < n; j++ {
 				if adj[i][j] && roles[j] != roleD && roles[j] != roleX {
-					c.fks = append(c.fks, fkey{20 + j, des(i), des(j)})
+					c.fks = append(c.fks, fkey{symOff + j, des(i), des(j)})
 				}
 			}
 			cs = append(cs, c)
@@ -760,7 +783,7 @@ func mkScenarioQ(n int, names []int, roles []int, adj [][]bool, variant int, ord
 				c.tcs = append(c.tcs, tch{kind: '-', f: fkey{j, cur(i), cur(j)}})
 			}
 			for _, j := range adds {
-				c.tcs = append(c.tcs, tch{kind: '+', f: fkey{20 + j, des(i), des(j)}})
+				c.tcs = append(c.tcs, tch{kind: '+', f: fkey{symOff + j, des(i), des(j)}})
 			}
 			if len(c.tcs) == 0 {
 				c.tcs = append(c.tcs, tch{kind: 'o', k: 0})
@@ -861,7 +884,7 @@ func genExhaustive(w *out.W, tier string) {
 // change list goes to sqlx.SortChanges directly.
 func genRaw(w *out.W, tier string) {
 	w.Exhaust = true
-	w.Rule = "raw SortChanges (no DetachCycles before it): every FK graph with self loops over n<=3 tables x every split created/dropped/modified x 4 readings x every input order, then the three tables s1.t1, s2.t1, s1.t2 (same name in two schemas) x roles created/dropped/modified/kept x every FK graph without self loops x 2 readings x every order, then seeded random change sets of 2..8 tables (quick 4000, thorough 60000). Compared: exact output order. Oracle: no panic/loop, output is a permutation of the input. Non-trivial = SortChanges moved something"
+	w.Rule = "raw SortChanges (no DetachCycles before it): every FK graph with self loops over n<=3 tables x every split created/dropped/modified x 4 readings x every input order, then the three tables s1.t1, s2.t1, s1.t2 (same name in two schemas) and u01a, u01A, u02A (names equal up to letter case) x roles created/dropped/modified/kept x every FK graph without self loops x 2 readings x every order, the pairs u01a/u01A and u01a/\"u01a \" with self loops, then seeded random change sets of 2..8 tables (quick 4000, thorough 60000). Compared: exact output order. Oracle: no panic/loop, output is a permutation of the input. Non-trivial = SortChanges moved something"
 	id := 0
 	for n := 1; n <= 3; n++ {
 		ps := perms(n)
@@ -882,28 +905,12 @@ func genRaw(w *out.W, tier string) {
 	// loops (cross-schema keys included) x 2 readings x every order -- dependsOn's SameTable / SameSchema
 	// tests on forward edges, which DetachCycles never leaves to SortChanges
 	{
-		names := []int{qname(1, 1), qname(2, 1), qname(1, 2)}
-		n := 3
-		ps := perms(n)
-		for bits := uint64(0); bits < 1<<uint(n*n); bits++ {
-			adj := adjOf(n, bits)
-			if adj[0][0] || adj[1][1] || adj[2][2] {
-				continue
-			}
-			for split := 0; split < pow(4, n); split++ {
-				roles := []int{split % 4, split / 4 % 4, split / 16 % 4}
-				for _, variant := range []int{0, 3} {
-					for _, p := range ps {
-						id++
-						sc := mkScenarioQ(n, names, roles, adj, variant, p)
-						if len(sc.cs) == 0 {
-							continue
-						}
-						runRawCase(w, fmt.Sprintf("ws-%d", id), sc, "two-schemas")
-					}
-				}
-			}
-		}
+		run := func(id string, sc *scenario, tags ...string) { runRawCase(w, id, sc, tags...) }
+		genThree(&id, "ws", []int{qname(1, 1), qname(2, 1), qname(1, 2)}, "quick", false, run, "two-schemas")
+		// names equal up to letter case / a trailing space, no schema object: t01, T01, t02
+		genThree(&id, "wk", []int{twin(1, 1), twin(1, 0), twin(2, 0)}, "quick", false, run, "case-twins")
+		genTwo(&id, "wk2", []int{twin(1, 1), twin(1, 0)}, run, "case-twins-pair")
+		genTwo(&id, "wp2", []int{twin(1, 1), twin(1, 2)}, run, "space-twins-pair")
 	}
 	r := rng.FromEnv(0xC04A)
 	count := 4000
@@ -1248,42 +1255,180 @@ func schTags(sc *scenario, tags ...string) []string {
 	return tags
 }
 
-func genSchemas(w *out.W, tier string) {
-	w.Exhaust = true
-	w.Rule = "change sets over two schemas with same-named tables; every case is planned 3 times from the same slice value (DetachCycles+SortChanges, SortChanges of the same detached list twice, mysql.DefaultPlan, postgres.DefaultPlan): the plans must be identical, the slice, the Changes of its ModifyTables and the tables' ForeignKeys untouched, the LAST plan is the one judged and compared. (a) exhaustive: the three tables s1.t1, s2.t1, s1.t2 x every role created/dropped/modified/kept (4^3) x every FK graph without self loops incl. cross-schema keys (2^6; thorough: with self loops 2^9) x readings of a modified table's edges (quick 2; thorough 4, 2 on graphs with self loops) x every input order. (b) a cycle of length 2 or 3 in schema s1 (all created / all dropped / all modified, 4 readings) x for each cycle table a same-named twin in s2 that is absent/created/dropped/modified/kept (5^L - 1) x twin keys (none / the same cycle among the twins / twin -> its namesake in s1 / namesake -> twin) x order (schema by schema, twins first, alternating, reversed) x with and without the schema-level changes of a realm diff in front (AddSchema when all tables of the schema are created, DropSchema when all are dropped, ModifySchema otherwise). (c) seeded random: 4..8 tables over 3 schemas x 3 base names (1 case in 4: one of the three is \"no schema object\"). Oracle as in the other stages (tables identified by (schema, name)) + replan-differs, input-mutated, schema-change-not-once (each schema-level change is in the executed plan exactly once). Non-trivial = the planned order differs from the input order"
-	id := 0
-	// (a)
-	{
-		names := []int{qname(1, 1), qname(2, 1), qname(1, 2)}
-		n := 3
-		ps := perms(n)
-		variants := []int{0, 3}
-		if tier == "thorough" {
-			variants = []int{0, 1, 2, 3}
+// ---- stage "large": more than a dozen changes in one plan
+
+// genLarge: 13..40 tables, most of them unrelated (no keys: not in the index map of sortMap, sort key 0), a few
+// FK chains, sometimes a cycle; create-all / drop-all / modify-all / mixed; the change list in a random
+// order, or children first (child, unrelated ..., parent), or with the drop-only ModifyTables moved to the end.
+func genLarge(w *out.W, tier string) {
+	w.Rule = "seeded random change sets of 13..40 changes (Go's sort.Slice is an insertion sort up to 12 elements and pdqsort, not stable, beyond): 60..85% of the tables unrelated (no foreign keys), 1..4 FK chains of 2..6 tables, 1 case in 4 with a planted cycle, 1 in 5 with a few extra edges; roles create-all / drop-all / modify-all (4 readings; a ModifyTable's T.ForeignKeys never lists the keys it adds) / mixed incl. kept tables; order: random / children before parents with unrelated tables between them / drop-only ModifyTables last. Compared with the model: the multiset of planned changes + replay verdict (the order of equal sort keys is pdqsort's); the order is judged by the oracle (reference catalogue, same-value replanning) on the Go plans. Non-trivial = the planned order differs from the input order"
+	r := rng.FromEnv(0xC04B)
+	count := 2500
+	if tier == "thorough" {
+		count = 60000
+	}
+	for k := 0; k < count; k++ {
+		n := 13 + r.Intn(28)
+		adj := make([][]bool, n)
+		for i := range adj {
+			adj[i] = make([]bool, n)
 		}
-		for bits := uint64(0); bits < 1<<uint(n*n); bits++ {
-			adj := adjOf(n, bits)
-			if tier != "thorough" && (adj[0][0] || adj[1][1] || adj[2][2]) {
-				continue
+		p := randPerm(r, n)
+		related := n * (15 + r.Intn(26)) / 100
+		if related < 3 {
+			related = 3
+		}
+		// chains over the first `related` tables of p
+		pos := 0
+		for pos+1 < related {
+			l := 2 + r.Intn(5)
+			if pos+l > related {
+				l = related - pos
 			}
-			selfLoop := adj[0][0] || adj[1][1] || adj[2][2]
-			for split := 0; split < pow(4, n); split++ {
-				roles := []int{split % 4, split / 4 % 4, split / 16 % 4}
-				for _, variant := range variants {
-					if selfLoop && variant != 0 && variant != 3 {
+			for i := 0; i+1 < l; i++ {
+				adj[p[pos+i]][p[pos+i+1]] = true
+			}
+			pos += l
+		}
+		if r.Chance(1, 4) { // a cycle among related tables
+			l := 2 + r.Intn(3)
+			for i := 0; i < l; i++ {
+				adj[p[i%related]][p[(i+1)%l%related]] = true
+			}
+		}
+		if r.Chance(1, 5) {
+			for e := 0; e < 3; e++ {
+				adj[p[r.Intn(related)]][p[r.Intn(related)]] = true
+			}
+		}
+		roles := make([]int, n)
+		mode := r.Intn(5)
+		for i := range roles {
+			switch mode {
+			case 0, 1, 2:
+				roles[i] = mode
+			case 3:
+				roles[i] = r.Intn(3)
+			default:
+				roles[i] = r.Intn(4)
+			}
+		}
+		variant := r.Intn(4)
+		sc := mkScenarioQ(n, nil, roles, adj, variant, randPerm(r, n))
+		if len(sc.cs) < 13 {
+			k--
+			continue
+		}
+		place := r.Intn(3)
+		switch place {
+		case 1: // children first: a table that references another one goes in front of it
+			idx := map[int]int{}
+			for i, c := range sc.cs {
+				idx[c.t.name] = i
+			}
+			sort.SliceStable(sc.cs, func(a, b int) bool {
+				refs := func(x, y chg) bool {
+					for _, f := range x.allFKs() {
+						if f.ref.name == y.t.name && f.ref.name != x.t.name {
+							return true
+						}
+					}
+					return false
+				}
+				return refs(sc.cs[a], sc.cs[b]) && !refs(sc.cs[b], sc.cs[a])
+			})
+		case 2: // drop-only ModifyTables last
+			var front, back []chg
+			for _, c := range sc.cs {
+				dropOnly := c.kind == 'M'
+				for _, tc := range c.tcs {
+					if tc.kind == '+' || tc.kind == '~' {
+						dropOnly = false
+					}
+				}
+				if dropOnly {
+					back = append(back, c)
+				} else {
+					front = append(front, c)
+				}
+			}
+			sc.cs = append(front, back...)
+		}
+		runCase(w, fmt.Sprintf("L%d", k), sc, fmt.Sprintf("roles-mode:%d", mode), fmt.Sprintf("placement:%d", place), fmt.Sprintf("size:%d-%d", len(sc.cs)/10*10, len(sc.cs)/10*10+9))
+	}
+}
+
+// genThree: three tables with the given identities x every role created/dropped/modified/kept (4^3) x every
+// FK graph without self loops (2^6; with self loops 2^9 when selfLoops) x readings of a modified table's
+// edges (2; thorough 4, 2 on graphs with self loops) x every input order.
+func genThree(id *int, prefix string, names []int, tier string, selfLoops bool, run func(id string, sc *scenario, tags ...string), tag string) {
+	n := 3
+	ps := perms(n)
+	variants := []int{0, 3}
+	if tier == "thorough" {
+		variants = []int{0, 1, 2, 3}
+	}
+	for bits := uint64(0); bits < 1<<uint(n*n); bits++ {
+		adj := adjOf(n, bits)
+		selfLoop := adj[0][0] || adj[1][1] || adj[2][2]
+		if selfLoop && !selfLoops {
+			continue
+		}
+		for split := 0; split < pow(4, n); split++ {
+			roles := []int{split % 4, split / 4 % 4, split / 16 % 4}
+			for _, variant := range variants {
+				if selfLoop && variant != 0 && variant != 3 {
+					continue
+				}
+				for _, p := range ps {
+					*id++
+					sc := mkScenarioQ(n, names, roles, adj, variant, p)
+					if len(sc.cs) == 0 {
 						continue
 					}
-					for _, p := range ps {
-						id++
-						sc := mkScenarioQ(n, names, roles, adj, variant, p)
-						if len(sc.cs) == 0 {
-							continue
-						}
-						runCase(w, fmt.Sprintf("sa-%d", id), sc, schTags(sc, "family:a-three-tables")...)
-					}
+					run(fmt.Sprintf("%s-%d", prefix, *id), sc, tag)
 				}
 			}
 		}
+	}
+}
+
+// genTwo: two tables x every role (4^2) x every FK graph WITH self loops (2^4) x 4 readings x both orders.
+func genTwo(id *int, prefix string, names []int, run func(id string, sc *scenario, tags ...string), tag string) {
+	n := 2
+	for bits := uint64(0); bits < 1<<uint(n*n); bits++ {
+		adj := adjOf(n, bits)
+		for split := 0; split < pow(4, n); split++ {
+			roles := []int{split % 4, split / 4 % 4}
+			for variant := 0; variant < 4; variant++ {
+				for _, p := range perms(n) {
+					*id++
+					sc := mkScenarioQ(n, names, roles, adj, variant, p)
+					if len(sc.cs) == 0 {
+						continue
+					}
+					run(fmt.Sprintf("%s-%d", prefix, *id), sc, tag)
+				}
+			}
+		}
+	}
+}
+
+func genSchemas(w *out.W, tier string) {
+	w.Exhaust = true
+	w.Rule = "change sets over two schemas with same-named tables; every case is planned 3 times from the same slice value (DetachCycles+SortChanges, SortChanges of the same detached list twice, mysql.DefaultPlan, postgres.DefaultPlan): the plans must be identical, the slice, the Changes of its ModifyTables and the tables' ForeignKeys untouched, the LAST plan is the one judged and compared. (a) exhaustive: the three tables s1.t1, s2.t1, s1.t2 x every role created/dropped/modified/kept (4^3) x every FK graph without self loops incl. cross-schema keys (2^6; thorough: with self loops 2^9) x readings of a modified table's edges (quick 2; thorough 4, 2 on graphs with self loops) x every input order. (b) a cycle of length 2 or 3 in schema s1 (all created / all dropped / all modified, 4 readings) x for each cycle table a same-named twin in s2 that is absent/created/dropped/modified/kept (5^L - 1) x twin keys (none / the same cycle among the twins / twin -> its namesake in s1 / namesake -> twin) x order (schema by schema, twins first, alternating, reversed) x with and without the schema-level changes of a realm diff in front (AddSchema when all tables of the schema are created, DropSchema when all are dropped, ModifySchema otherwise). (a') the same three-table family for the names u01a, u01A, t02 of ONE schema (equal up to letter case) and, with self references and 4 readings, the pairs u01a/u01A and u01a/\"u01a \" (trailing space). (c) seeded random: 4..8 tables over 3 schemas x 6 names (t01 t02 t03 u01A u01a \"u01a \") (1 case in 4: one of the three is \"no schema object\"). Oracle as in the other stages (tables identified by (schema, name)) + replan-differs, input-mutated, schema-change-not-once (each schema-level change is in the executed plan exactly once). Non-trivial = the planned order differs from the input order"
+	id := 0
+	// (a)
+	run := func(id string, sc *scenario, tags ...string) { runCase(w, id, sc, schTags(sc, tags...)...) }
+	genThree(&id, "sa", []int{qname(1, 1), qname(2, 1), qname(1, 2)}, tier, tier == "thorough", run, "family:a-three-tables")
+	// (a') names equal up to letter case in ONE schema: s1.t01, s1.T01, s1.t02 (chains A -> B -> a, ...), and the
+	// pair alone with self references (a self-referencing "node" next to "Node" -> "node"); the same with a
+	// trailing space ("t01" / "t01 "); thorough: the three-table family for the trailing space too
+	genThree(&id, "sk", []int{qname(1, twin(1, 1)), qname(1, twin(1, 0)), qname(1, 2)}, tier, false, run, "family:a-case-twins")
+	genTwo(&id, "sk2", []int{qname(1, twin(1, 1)), qname(1, twin(1, 0))}, run, "family:a-case-twins-pair")
+	genTwo(&id, "sp2", []int{qname(1, twin(1, 1)), qname(1, twin(1, 2))}, run, "family:a-space-twins-pair")
+	if tier == "thorough" {
+		genThree(&id, "sp", []int{qname(1, twin(1, 1)), qname(1, twin(1, 2)), qname(1, twin(2, 1))}, tier, false, run, "family:a-space-twins")
 	}
 	// (b)
 	for L := 2; L <= 3; L++ {
@@ -1354,6 +1499,7 @@ func genSchemas(w *out.W, tier string) {
 			for b := 1; b <= 3; b++ {
 				names = append(names, qname(s, b))
 			}
+			names = append(names, qname(s, twin(1, 0)), qname(s, twin(1, 1)), qname(s, twin(1, 2))) // u01A, u01a, "u01a "
 		}
 		p := randPerm(r, len(names))
 		n := 4 + r.Intn(5)
